@@ -57,6 +57,26 @@ Definition fvar_normalize_tbl (m : mode) (f : fvar) (coords : list Z)
 Definition fvar_owned_tuple (f : fvar) (vals : list Z) : option (list Z) :=
   if len vals =? fvar_axis_count f then Some vals else None.
 
+(* FvarTable::instances().nth(k), reduced to the record's coordinates: the record is the k-th
+   instanceSize-byte cell of instance_array, read as subfamilyNameID, flags, axisCount Fixed values
+   and, when the record is larger than that, postScriptNameID.  None: no such record. *)
+Definition coord_ty : ty := [PI32].
+Definition fvar_instance_coords (m : mode) (f : fvar) (k : Z) : outcome (option (list Z)) :=
+  if (0 <=? k) && (k <? f_icount f) then
+    o <- umul m k (f_isize f) ;;
+    e <- uadd m o (f_isize f) ;;
+    if e <=? len (f_inst f) then                       (* instance_array.get(o..e).ok_or(BadIndex) *)
+      let c := ctxt_new (scope_new (take (f_isize f) (drop o (f_inst f)))) in
+      '(_, c) <- read_prim PU16 c ;;
+      '(_, c) <- read_prim PU16 c ;;
+      '(arr, c) <- read_array m coord_ty c (fvar_axis_count f) ;;
+      _ <- (if fvar_axis_count f * 4 + 4 <? f_isize f
+            then '(ps, _) <- read_prim PU16 c ;; Ok ps else Ok 0) ;;
+      v <- arr_to_vec m arr ;;
+      Ok (Some (map (fun r => nthZ r 0) v))
+    else Err BadIndex
+  else Ok None.
+
 (* the tuple returned by variations::instance for a font whose other tables are in order:
    read fvar, (avar is read by the caller), fvar.normalize(user_instance, avar) *)
 Definition instance_tuple (m : mode) (fvar_bytes : list Z) (coords : list Z)
@@ -67,7 +87,8 @@ Definition instance_tuple (m : mode) (fvar_bytes : list Z) (coords : list Z)
    The byte layout synthesised by the harness.  SHAPE = what the header says and what follows
    the records; the records themselves are written at max(off,16) with max(asz,20) bytes each
    (20 bytes of record, then filler), so a header with off < 16 or asz < 20 describes a
-   malformed table. *)
+   malformed table.  Then icnt instance records of exactly isz bytes each (enc_inst), then
+   `trail` more bytes, or the last -trail bytes cut off. *)
 Record shape := {
   sh_major : Z; sh_off : Z; sh_asz : Z; sh_dcount : Z; sh_icnt : Z; sh_isz : Z; sh_trail : Z
 }.
@@ -93,13 +114,31 @@ Fixpoint enc_axes (asz : Z) (i : Z) (axes : list axis4) : list Z :=
   | a :: r => enc_axis asz i a ++ enc_axes asz (i + 1) r
   end.
 
+(* instance record i: subfamilyNameID 300+i, flags 0, for axis j one of min / default / max /
+   midpoint of that axis (so named instances sit on the boundaries), then filler; always exactly
+   instanceSize bytes, i.e. cut short when instanceSize < 4 + 4*axisCount *)
+Definition inst_coord (i j : Z) (a : axis4) : Z :=
+  let '(_, mn, df, mx) := a in
+  let r := (i + j) mod 4 in
+  if r =? 0 then mn else if r =? 1 then df else if r =? 2 then mx else (mn + mx) / 2.
+Fixpoint inst_coords (i j : Z) (axes : list axis4) : list Z :=
+  match axes with
+  | [] => []
+  | a :: r => inst_coord i j a :: inst_coords i (j + 1) r
+  end.
+Definition enc_inst (isz : Z) (axes : list axis4) (i : Z) : list Z :=
+  take isz (u16b (300 + i) ++ u16b 0 ++ concat (map u32b (inst_coords i 0 axes)) ++
+            pad i (isz - 4 - 4 * len axes)).
+Definition enc_insts (icnt isz : Z) (axes : list axis4) : list Z :=
+  concat (map (enc_inst isz axes) (range 0 (Z.to_nat icnt))).
+
 Definition fvar_encode (sh : shape) (axes : list axis4) : list Z :=
   let body :=
     u16b (sh_major sh) ++ u16b 0 ++ u16b (sh_off sh) ++ u16b 2 ++
     u16b (len axes + sh_dcount sh) ++ u16b (sh_asz sh) ++ u16b (sh_icnt sh) ++ u16b (sh_isz sh) ++
     pad 0 (sh_off sh - 16) ++
     enc_axes (sh_asz sh) 0 axes ++
-    pad 7 (sh_icnt sh * sh_isz sh) in
+    enc_insts (sh_icnt sh) (sh_isz sh) axes in
   if 0 <=? sh_trail sh then body ++ pad 3 (sh_trail sh)
   else take (Z.max 0 (len body + sh_trail sh)) body.
 
@@ -113,3 +152,14 @@ Definition case_instance (m : mode) (sh : shape) (axes : list axis4) (coords : l
 Definition case_owned_tuple (m : mode) (sh : shape) (axes : list axis4) (k : Z) : outcome Z :=
   f <- fvar_read m (fvar_encode sh axes) ;;
   Ok (match fvar_owned_tuple f (map (fun _ => 0) (range 0 (Z.to_nat k))) with Some _ => 1 | None => 0 end).
+
+(* the user tuple is named instance k of the table itself (fvar.instances().nth(k)), normalised by
+   FvarTable::normalize / handed to variations::instance; no such instance: MissingValue *)
+Definition case_named (m : mode) (sh : shape) (axes : list axis4) (k : Z)
+           (avar : option (list (list (Z * Z)))) : outcome (list Z) :=
+  f <- fvar_read m (fvar_encode sh axes) ;;
+  r <- fvar_instance_coords m f k ;;
+  match r with
+  | None => Err MissingValue
+  | Some coords => fvar_normalize_tbl m f coords avar
+  end.
